@@ -17,7 +17,8 @@ RULE = (
     "intervals, legal pipelines from the grammar matching_cost {confidence|cbca}* disparity {filter|refinement|"
     "validation[+filling]}* with '.suffix' repetitions. 'mirror' cases contain a validation step; 'no-validation' cases "
     "do not. Non-trivial (mirror) = L != R and the right map has >= 1 valid and >= 1 flagged (non-border) pixel; "
-    "(no-validation) = adding the cross-check flags >= 1 pixel; distinct = distinct canonical payload."
+    "'mirror-multiscale' cases are 24-48 px pairs through a 2-3 level pyramid with the validation step before or after "
+    "the multiscale step and intervals not symmetric about 0. (no-validation) = adding the cross-check flags >= 1 pixel; distinct = distinct canonical payload."
 )
 ASSUMPTIONS = [
     "the added validation step is asserted to leave the left disparity map unchanged only when it is the last step "
@@ -83,6 +84,10 @@ def mirror_body(ctx: Ctx, p: dict) -> None:
         classes.append("refinement")
     if names.count("validation") > 1:
         classes.append("validation-twice")
+    if "multiscale" in names:
+        classes.append("multiscale")
+        if a != -b:
+            classes.append("multiscale-asymmetric-interval")
     if ml is not None or mr is not None:
         classes.append("mask")
     ctx.case(p, nontrivial=nt, classes=classes)
@@ -113,7 +118,38 @@ def noval_body(ctx: Ctx, p: dict) -> None:
     ctx.case(p, nontrivial=bool((new != 0).any()), classes=[])
 
 
+@st.composite
+def multiscale_cases(draw):
+    """the mirrored problem through a coarse-to-fine pyramid: the right interval grids of every finer scale come from
+    the right map and the mirrored user interval"""
+    pair = draw(gen.image_pair(min_rows=24, max_rows=44, min_cols=24, max_cols=48, max_val=30, masks=True, tile_max=8))
+    ns = draw(st.sampled_from([2, 2, 3])) if min(pair["H"], pair["W"]) >= 36 else 2
+    w = draw(st.sampled_from([1, 3]))
+    steps = [["matching_cost", {"matching_cost_method": draw(st.sampled_from(["sad", "census", "zncc"])) if w > 1 else "ssd",
+                               "window_size": w, "subpix": draw(st.sampled_from([1, 1, 2]))}]]
+    if draw(st.integers(0, 3)) == 0:
+        steps.append(["aggregation", {"aggregation_method": "cbca", "cbca_distance": 2}])
+    steps.append(["disparity", {"disparity_method": "wta", "invalid_disparity": draw(st.sampled_from([-9999, "NaN"]))}])
+    val = ["validation", {"validation_method": "cross_checking_accurate"}]
+    if draw(st.booleans()):
+        val[1]["cross_checking_threshold"] = draw(st.sampled_from([0, 1, 2]))
+    extra = [["filter", {"filter_method": "median", "filter_size": 3}],
+             ["refinement", {"refinement_method": draw(st.sampled_from(["vfit", "quadratic"]))}]]
+    pre = [e for e in extra if draw(st.integers(0, 2)) == 0]
+    post = [e for e in extra if e not in pre and draw(st.integers(0, 2)) == 0]
+    ms = ["multiscale", {"multiscale_method": "fixed_zoom_pyramid", "num_scales": ns, "scale_factor": 2,
+                         "marge": draw(st.integers(0, 2))}]
+    if draw(st.booleans()):
+        steps += pre + [val, ms] + post
+    else:
+        steps += pre + [ms] + post + [val]
+    a = draw(st.integers(-8, 4))
+    b = a + draw(st.integers(1, 8))
+    return {"pair": pair, "pipeline": steps, "disp": [a, min(b, 8)]}
+
+
 CHECKS = [
     Check("mirror", mirror_body, strategy=mirror_cases, budget={"quick": (12, 16), "thorough": (16, 800)}),
+    Check("mirror-multiscale", mirror_body, strategy=multiscale_cases, budget={"quick": (6, 8), "thorough": (16, 200)}),
     Check("no-validation", noval_body, strategy=noval_cases, budget={"quick": (4, 16), "thorough": (16, 300)}),
 ]
